@@ -20,5 +20,28 @@ Theorem C07_cursor_within_inspected :
 Proof. exact cursor_le_hiwater. Qed.
 Print Assumptions C07_cursor_within_inspected.
 
+(** Two successive calls on one reader (each call a fresh lexer, which never unreads before it has
+    read): for every pair of programs and every text, the second call gives what the same program
+    gives on the text that begins where the first call stopped -- same result, same outputs
+    (tokens, comments, errors) -- and it stops at the corresponding place.  With prefix locality:
+    the sequence of results over a stream equals parsing each command's text on its own. *)
+Theorem C07_successive_calls :
+  forall (O A B : Type) (p : prog O A) (q : prog O B) (rs : list rune),
+    let s := mkSource rs None in
+    let '(a, os, st1) := run p s r0 in
+    let '(b, os2, st2) := run q s (fresh st1) in
+    let '(b', os2', st2') := run q (mkSource (skipn (cursor st1) rs) None) r0 in
+    b = b' /\ os2 = os2' /\ cursor st2 = (cursor st2' + cursor st1)%nat.
+Proof. exact (@successive_calls). Qed.
+Print Assumptions C07_successive_calls.
+
+(** Sequencing: running one program after another is running them in turn on the same reader. *)
+Theorem C07_sequencing :
+  forall (O A B : Type) (m : prog O A) (f : A -> prog O B) (s : source) (st : rstate),
+    run (bind m f) s st =
+    let '(a, os, st1) := run m s st in let '(b, os2, st2) := run (f a) s st1 in (b, os ++ os2, st2).
+Proof. exact (@run_bind). Qed.
+Print Assumptions C07_sequencing.
+
 (** Not proved here (decided by the stream check on the implementation): that the lexer stops
     exactly after the terminating newline of a complete command (it needs the lexer model). *)
